@@ -671,6 +671,10 @@ func c15(c *Ctx) {
 		"the gates (Crossplane version constraint, dependencies) examine the converted v1 object: a field the converter drops is a constraint that is never checked for v1beta1 / v1alpha1 metadata")
 	convertersComplete(c, "what the older metadata declares there is lost before the gates look at it", "apis/pkg/meta/v1beta1", "apis/pkg/meta/v1alpha1")
 
+	c.R.Rule("R15.9", "the accessors of the three revision kinds read the field they are named after", 30,
+		"the reconciler is written once against the PackageRevision interface: an accessor of one kind that reads a sibling field (skipDependencyResolution for ignoreCrossplaneConstraints) silently switches a gate off for that kind only")
+	accessorsOwnField(c, xp+"apis/pkg/v1", "ProviderRevision", "ConfigurationRevision", "FunctionRevision")
+
 	c.R.Rule("R15.5", "Verified is only set true for a reason", 2, "an unverified package would pass the revision controller's gate")
 	if sr := c.method("internal/controller/pkg/signature", "Reconciler", "Reconcile"); sr != nil {
 		val := cfgx.Calls(sr, func(ci ssa.CallInstruction) bool {
@@ -905,6 +909,84 @@ func convertersComplete(c *Ctx, lost string, pkgs ...string) {
 				}
 				c.R.Check(len(missing) == 0, load.FuncName(fn)+": carries shared fields", c.pos(fn.Pos()), "every field the source and the target type share is assigned", "the conversion does not assign "+strings.Join(missing, ", ")+": "+lost)
 			}
+		}
+	}
+}
+
+// accessorAlias: getters whose field has another name, "<Getter>" -> field
+var accessorAlias = map[string]string{
+	"GetObjects":             "ObjectRefs",
+	"GetSource":              "Package",
+	"GetControllerConfigRef": "ControllerConfigReference",
+	"GetRuntimeConfigRef":    "RuntimeConfigReference",
+}
+
+// accessorsOwnField: every niladic Get<F> method of the named types whose body
+// just returns a field (chain) returns the field named F (or its tabled alias),
+// and the named types agree with each other on that field path.
+func accessorsOwnField(c *Ctx, pkgPath string, typeNames ...string) {
+	pkg := c.P.SSAPkgs[pkgPath]
+	if pkg == nil {
+		c.R.Unknown(pkgPath, "", "package not loaded")
+		return
+	}
+	paths := map[string]map[string]string{} // getter -> type -> field path
+	for _, tn := range typeNames {
+		mem, ok := pkg.Members[tn].(*ssa.Type)
+		if !ok {
+			continue
+		}
+		nt, ok := mem.Type().(*types.Named)
+		if !ok {
+			continue
+		}
+		for i := 0; i < nt.NumMethods(); i++ {
+			m := nt.Method(i)
+			if !strings.HasPrefix(m.Name(), "Get") {
+				continue
+			}
+			fn := c.P.SSA.FuncValue(m)
+			if fn == nil || fn.Blocks == nil || len(fn.Params) != 1 || fn.Signature.Results().Len() != 1 || len(fn.Blocks) != 1 {
+				continue
+			}
+			rets := cfgx.ReturnedValues(fn, 0)
+			if len(rets) != 1 {
+				continue
+			}
+			// a pure field chain from the receiver
+			var chain []string
+			v := rets[0]
+			pure := true
+			for v != ssa.Value(fn.Params[0]) && pure {
+				switch x := v.(type) {
+				case *ssa.UnOp:
+					if x.Op != token.MUL {
+						pure = false
+					}
+					v = x.X
+				case *ssa.FieldAddr:
+					chain = append([]string{fieldName(x.X.Type(), x.Field)}, chain...)
+					v = x.X
+				case *ssa.Field:
+					chain = append([]string{fieldName(x.X.Type(), x.Field)}, chain...)
+					v = x.X
+				default:
+					pure = false
+				}
+			}
+			if !pure || len(chain) == 0 {
+				continue
+			}
+			want := strings.TrimPrefix(m.Name(), "Get")
+			if a, ok := accessorAlias[m.Name()]; ok {
+				want = a
+			}
+			got := chain[len(chain)-1]
+			c.R.Check(got == want, load.FuncName(fn)+": own field", c.pos(fn.Pos()), "returns ."+strings.Join(chain, "."), m.Name()+" returns ."+strings.Join(chain, ".")+", not the field it is named after")
+			if paths[m.Name()] == nil {
+				paths[m.Name()] = map[string]string{}
+			}
+			paths[m.Name()][tn] = strings.Join(chain, ".")
 		}
 	}
 }
